@@ -15,7 +15,7 @@ TRUSTED = ['Lean 4.33 kernel', 'axioms: propext, Classical.choice, Quot.sound',
            'harness/mhist.py, harness/props/c07.py (history generator, document conversion, comparison)']
 WEIGHTS = {'add_asset': 12, 'remove_asset': 2, 'add_association': 10, 'set_assoc_extras': 3, 'remove_association': 1, 'remove_asset_from_association': 1,
            'add_attacker': 3, 'remove_attacker': 1, 'add_entry_point': 6, 'remove_entry_point': 1}
-NAMES = ['A', 'B', 'yes', '0123', '- x', 'a: b', '#c', 'é€', 'two\nlines', ' lead', "q'uo\"te", 'null', '~', '1e3', '']
+NAMES = ['A', 'B', 'yes', '0123', '- x', 'a: b', '#c', 'é€', 'two\nlines', ' lead', "q'uo\"te", 'null', '~', '1e3', '', 'srv\U0001F600', '\U0001F512lock \u4e2d']
 
 def full_obs(m):
     """what the property says must be preserved"""
